@@ -166,6 +166,40 @@ def runAuditD (op : String) (d : GDesc) (x : Array Rat) : Except String (Array F
     let E := X.mul R
     let s := X.maxAbs
     return #[ratToFloat (E.maxAbs / (if s < 1 then 1 else s))]
+  | "a_d2rexp" | "a_d2rexpinv" | "a_d2lexp" | "a_d2lexpinv" =>
+    -- inputs a, H (dof × dof²) in the layout H[r, dof·j + k] = ∂J[j,r]/∂a_k ; central differences of the
+    -- oracle Jacobian with h = 2^-40 (exact dyadic step)
+    let n := G.dof
+    let left := op == "a_d2lexp" || op == "a_d2lexpinv"
+    let inv := op == "a_d2rexpinv" || op == "a_d2lexpinv"
+    let a0 : Array Rat := x.extract 0 n
+    let Hin : RMat := ⟨n, n * n, x.extract n x.size⟩
+    let h : Rat := 1 / (2 : Rat) ^ 40
+    let jac (a : Array Rat) : Option BMat :=
+      -- right Jacobian at a (left variants: dl(a) = dr(−a))
+      let aa := if left then a.map (fun t => -t) else a
+      let J := BMat.jacSeries (BMat.ofRMat (RMat.ofMat (G.ad (vecR aa))))
+      if inv then J.inverse else some J
+    let mut worst : Rat := 0
+    let mut scale : Rat := 1
+    for k in [0:n] do
+      let ap := a0.modify k (· + h)
+      let am := a0.modify k (· - h)
+      match jac ap, jac am with
+      | some Jp, some Jm =>
+        let D := (Jp.sub Jm).toRMat.smul (1 / (2 * h))
+        for j in [0:n] do
+          for r in [0:n] do
+            -- d2l(a) = −d2r(−a): with b = −a, ∂/∂a_k J(−a) = −(∂J/∂b_k)(b), and the code returns −d2r_exp(−a);
+            -- the derivative of a ↦ dl(a) = dr(−a) w.r.t. a_k is what D holds directly.
+            let e := Hin.get r (n * j + k)
+            let o := D.get j r
+            let d := (e - o).abs
+            if d > worst then worst := d
+            if o.abs > scale then scale := o.abs
+            if e.abs > scale then scale := e.abs
+      | _, _ => throw "singular-jacobian"
+    return #[ratToFloat (worst / scale)]
   | _ => .error s!"unknown-audit-op {op}"
 
 def runAudit (op grp prec : String) (args : Array String) : String :=
